@@ -93,3 +93,80 @@ package blob
 //@   loop 1: backedge err == nil
 //@   loop 2: backedge !head(ctxDone(ctx))
 //@   loop 2: backedge !head(ctxDone(s.ctx))
+
+// ---------------------------------------------------------------------------------------------
+// C11: the share parser that assembles one blob at a time, and the cursor arithmetic of retrieve.
+// Share predicates (go-square, by name): isPad(s) - s is a padding share; seqLen(s), shareVer(s) - the
+// sequence length and share version in the first share of a sequence; sparseNeeded(n, signer) - how
+// many shares a blob of n bytes occupies.
+//@ pure func isPad(s libshare.Share) bool
+//@ pure func seqLen(s libshare.Share) uint32
+//@ pure func shareVer(s libshare.Share) uint8
+//@ pure func sparseNeeded(n uint32, signer bool) int
+//@ extern (*github.com/celestiaorg/go-square/v4/share.Share).IsPadding
+//@   ensures result == isPad(deref(s))
+//@ extern (*github.com/celestiaorg/go-square/v4/share.Share).SequenceLen
+//@   ensures result == seqLen(deref(s))
+//@ extern (*github.com/celestiaorg/go-square/v4/share.Share).Version
+//@   ensures result == shareVer(deref(s))
+//@ extern github.com/celestiaorg/go-square/v4/share.SparseSharesNeeded
+//@   ensures result == sparseNeeded(sequenceLen, containsSigner)
+
+// skipPadding drops exactly the leading padding shares and records how many there were.
+//@ func (*parser).skipPadding
+//@   property C11
+//@   nopanic
+//@   requires p != nil
+//@   modifies p
+//@   ensures p.length == old(p.length) && p.shares == old(p.shares) && p.verifyFn == old(p.verifyFn)
+//@   ensures err == nil <==> len(shares) != 0
+//@   ensures err != nil ==> err == errEmptyShares
+//@   ensures err == nil ==> 0 <= p.index && p.index <= len(shares)
+//@   ensures err == nil ==> forall i int :: 0 <= i && i < p.index ==> isPad(shares[i])
+//@   ensures err == nil && p.index < len(shares) ==> !isPad(shares[p.index]) && result0 == shares[p.index:]
+//@   ensures err == nil && p.index == len(shares) ==> len(result0) == 0
+//@   loop 1: invariant -1 <= rangeindex && rangeindex < len(shares) && offset == rangeindex + 1
+//@   loop 1: invariant forall i int :: 0 <= i && i < offset ==> isPad(shares[i])
+
+// set positions the parser on the first blob of a run of shares: the leading padding is skipped and
+// counted into the blob's index, the blob's share count is read from its first share.
+//@ func (*parser).set
+//@   property C11
+//@   nopanic
+//@   requires p != nil
+//@   modifies p
+//@   ensures p.shares == old(p.shares) && p.verifyFn == old(p.verifyFn)
+//@   ensures err != nil ==> err == errEmptyShares
+//@   ensures err == nil ==> 0 < len(result0) && len(result0) <= len(shrs) && result0 == shrs[len(shrs)-len(result0):]
+//@   ensures err == nil ==> forall i int :: 0 <= i && i < len(shrs) - len(result0) ==> isPad(shrs[i])
+//@   ensures err == nil ==> !isPad(result0[0])
+//@   ensures err == nil ==> p.index == index + (len(shrs) - len(result0))
+//@   ensures err == nil ==> p.length == sparseNeeded(seqLen(result0[0]), shareVer(result0[0]) == 1)
+
+// addShares moves shares into the parser until it holds p.length of them and hands back the rest.
+//@ func (*parser).addShares
+//@   property C11
+//@   nopanic
+//@   requires p != nil && (p.shares == nil || !sameArray(p.shares, shares))
+//@   modifies p
+//@   modifies p.shares
+//@   ensures p.index == old(p.index) && p.length == old(p.length) && p.verifyFn == old(p.verifyFn)
+//@   ensures isComplete <==> (old(len(p.shares)) < p.length && p.length - old(len(p.shares)) <= len(shares))
+//@   ensures isComplete ==> len(p.shares) == p.length && len(shrs) == len(shares) - (p.length - old(len(p.shares)))
+//@   ensures isComplete && len(shrs) > 0 ==> shrs == shares[p.length - old(len(p.shares)):]
+//@   ensures !isComplete ==> len(p.shares) == old(len(p.shares)) + len(shares) && len(shrs) == 0
+//@   loop 1: invariant -1 <= rangeindex && rangeindex < len(shares) && index == -1 && !isComplete
+//@   loop 1: invariant len(p.shares) == old(len(p.shares)) + rangeindex + 1
+//@   loop 1: invariant p.index == old(p.index) && p.length == old(p.length) && p.verifyFn == old(p.verifyFn)
+//@   loop 1: invariant forall j int :: 0 <= j && j <= rangeindex ==> old(len(p.shares)) + j + 1 != p.length
+
+//@ func (*parser).isEmpty
+//@   property C11
+//@   requires p != nil
+//@   ensures result <==> (p.index == 0 && p.length == 0 && len(p.shares) == 0)
+
+//@ func (*parser).reset
+//@   property C11
+//@   requires p != nil
+//@   modifies p
+//@   ensures p.index == 0 && p.length == 0 && p.shares == nil && p.verifyFn == old(p.verifyFn)
